@@ -31,6 +31,10 @@ package future
 //@   invariant forall r vivid.ActorRef :: gcount(piped, r) >= old(gcount(piped, r))
 
 // completion takes effect at most once
+// message / err are published through the done channel: written by the one call of close() that wins the
+// CompareAndSwap and then closes done; everybody else reads them only after receiving from done
+//@ published (*Future).message by done except close
+//@ published (*Future).err by done except close
 //@ func (*Future).close
 //@   funcspec closer preserves f.err, f.message, f.done, f.liaison, f.forwarders, aval(f.closed), futwf(f)
 // published before signalled: Result / Wait read message and err right after <-done without any lock, so both must
